@@ -28,7 +28,12 @@ R_OBL = _rule("R-OBL", "r_obl")
 R_RED = _rule("R-RED", "r_obl", "red_obligations")
 R_FLOW = _rule("R-FLOW", "r_flow")
 
+R_CAP = _rule("R-CAP", "r_cap", all_for=("C07",))
+R_RING = _rule("R-RING", "r_cap", "ring_obligations", all_for=("C07",))
+R_WRAP = _rule("R-WRAP", "r_cap", "wrap_obligations")
+
 DECODE = [R_CHK, R_OBL, R_RED]
+BOUNDS = [R_CAP, R_RING, R_WRAP]
 
 ALL_CFG = ["K0", "K1", "K2", "K3"]
 
@@ -70,16 +75,24 @@ _prop("C05", [R_FLOW],
       "Hash kernel, structural clause only: caller lengths reach secp256k1_sha256_write unmodified (tagged hash, HMAC) and "
       "sha256_write moves its data pointer and remaining length together by the amount consumed (R-FLOW / R-CUR).",
       "ALL field / scalar / group / ecmult exactness and cross-configuration bit-identity: statements about 256-bit values, out of reach of static analysis here (declared not applicable for those clauses)")
+_CAPTXT = ("R-CAP (interval analysis `giv`): armed memcpy/memset lengths, variable array indexes and shift amounts stay within the "
+           "capacity / width on every path; R-RING: every ring size handed to the Borromean verifier is >= 1; R-WRAP: armed 64-bit "
+           "additions / multiplications of header-derived quantities are range-proved, guarded or post-checked. ")
+_prop("C07", BOUNDS,
+      "Untrusted bytes, structural clauses: " + _CAPTXT,
+      "general in-bounds / UB-freedom of the proof verifiers (needs relational invariants such as npub = sum rsizes <= 128, outside the interval domain: "
+      "the unprovable sites are listed in the evidence as not armed); termination; leak-freedom and callback reachability are decided by separate rules when registered",
+      assumptions=["distinct pointer parameters do not alias", "summaries: secp256k1_count_bits_set(d, c) in [0, 8c]; clz/ctz ranges"])
 _prop("C08", DECODE,
       "Pedersen: " + _DEC,
       "that the commitment is bG + vH, tally semantics, round-trips")
-_prop("C09", DECODE,
+_prop("C09", DECODE + BOUNDS,
       "Range-proof creation: " + _DEC,
       "created proofs verify, bound the value, rewind (value-level)")
-_prop("C10", DECODE,
+_prop("C10", DECODE + BOUNDS,
       "Range-proof verification: " + _DEC,
       "the Borromean ring equation and hash binding")
-_prop("C11", DECODE,
+_prop("C11", DECODE + BOUNDS,
       "Surjection proofs: " + _DEC,
       "subset selection correctness, the ring equation")
 _prop("C12", DECODE + [R_FLOW],
@@ -91,10 +104,10 @@ _prop("C14", DECODE,
 _prop("C15", DECODE,
       "Sign-to-contract / anti-exfil: " + _DEC,
       "equality of the two nonce derivations' values, soundness of the commitment")
-_prop("C16", DECODE,
+_prop("C16", DECODE + BOUNDS,
       "Whitelist: " + _DEC,
       "the ring equation, round-trip")
-_prop("C17", DECODE,
+_prop("C17", DECODE + BOUNDS,
       "Half-aggregation: " + _DEC,
       "the aggregate equation, incremental == one-shot equality (arithmetic over 256-bit values)")
 _prop("C18", DECODE,
